@@ -109,7 +109,7 @@ Consumed == Slice(stream, 1, pos)
 Refines == LET w == Whole(Consumed, Limit) IN NoFiles(outs) = w.outs /\ errv = w.err
 
 \* C03: cursor arithmetic stays in range in every reachable state, also after errors
-StructOK == CursorOK(c)
+StructOK == CursorOK(c) /\ BodyAdmitted(c)
 
 \* C11: after every parse error the parser part is that of a new connection
 FreshAfterError == errv # NoErr => ParserPart(c) = FreshParser
